@@ -83,6 +83,18 @@ Theorem C05_plans_tiled : forall n m p, axis_plan n m = Ok p -> plan_tiled p.
 Proof. exact axis_plan_tiled. Qed.
 Print Assumptions C05_plans_tiled.
 
+(* C05_nd_equiv (full strength): for every indexer that can be constructed, every dataset content, every index tuple
+   and every content of np.empty, the indexer with its chunk loop and the per-axis model give THE SAME result - the same
+   answer, and also the same rejections (the loop neither changes an answer nor rejects a request whose axes all
+   gather).  Hence every statement about [getitem] (C05_getitem, C05_rejects*, C05_shape_dtype, the F30 / F31
+   witnesses) is a statement about the real loop. *)
+Theorem C05_nd_equiv : forall garbage shape k1 ts dt li ds ixs,
+  Forall (fun d => 0 <= d) shape -> (forall sh, shaped sh (garbage sh)) ->
+  mk_lazy shape k1 ts dt = Ok li ->
+  getitem_nd garbage li ds ixs = getitem li ds ixs.
+Proof. exact getitem_nd_equiv. Qed.
+Print Assumptions C05_nd_equiv.
+
 (* C05_getitem_nd (full strength): C05_getitem for the indexer WITH its chunk loop and an arbitrary np.empty. *)
 Theorem C05_getitem_nd : forall garbage shape ds k1 ts dt k2 li out a1,
   Forall (fun d => 0 <= d) shape -> (forall sh, shaped sh (garbage sh)) ->
